@@ -274,6 +274,24 @@ def existsUnmodelled : GP → Bool
   | .join l r | .leftJoin l r | .union l r | .minus l r => existsUnmodelled l || existsUnmodelled r
   | _ => false
 
+def hasInnerModifier : GP → Bool
+  | .distinct _ | .slice _ _ _ | .reduced _ => true
+  | .filter _ p | .filterExists _ _ p | .graph _ p | .extend p _ _ | .orderBy p | .project p _ | .group p | .service p =>
+    hasInnerModifier p
+  | .join l r | .leftJoin l r | .union l r | .minus l r => hasInnerModifier l || hasInnerModifier r
+  | _ => false
+
+/-- a DISTINCT / OFFSET-LIMIT below the outermost `Slice? (Distinct? (Project (OrderBy? ..)))`: it keeps the
+first of several rows, the store's iteration order decides which, and through finding
+C13-subselect-leak the hidden variables of that row are visible outside.  Not compared (the harness
+answers `skip=1` for the same requests). -/
+def orderSensitive (p : GP) : Bool :=
+  let p := match p with | .slice q _ _ => q | q => q
+  let p := match p with | .distinct q => q | q => q
+  let p := match p with | .project q _ => q | q => q
+  let p := match p with | .orderBy q => q | q => q
+  hasInnerModifier p
+
 /-- a value-level expression meets a datatype whose value space is not modelled -/
 def outOfScope (D : List Quad) (p : GP) : Bool :=
   let es := gpExprs p
@@ -337,13 +355,42 @@ def attributeDev (D : List Quad) (q : Query) (impl : Fields) : String :=
   | some d => if d.names.isEmpty then "none" else "+".intercalate d.names
   | none => "unexplained"
 
+def exprHasNeg : Expr → Bool
+  | .neg _ => true
+  | .or a b | .and a b | .eq a b | .sameTerm a b | .lt a b | .cmp _ a b | .arith _ a b | .coalesce a b =>
+    exprHasNeg a || exprHasNeg b
+  | .not a | .call _ a | .pos a => exprHasNeg a
+  | .ite a b c | .inl a b c => exprHasNeg a || exprHasNeg b || exprHasNeg c
+  | _ => false
+
+def termHugeInt : Term → Bool
+  | .lit lex dt => dt = SparqlSpec.xsdInteger &&
+      (match SparqlSpec.parseInteger lex with | some i => i.natAbs ≥ 2 ^ 62 | none => false)
+  | .triple s p o => termHugeInt s || termHugeInt p || termHugeInt o
+  | _ => false
+
+/-- diagnostic for finding C13-neg-overflow-panic: the query negates and an integer of magnitude
+≥ 2^62 is around (`-isize::MIN` overflows; the model's integers are unbounded and do not panic) -/
+def negMin (D : List Quad) (p : GP) : Bool :=
+  (gpExprs p).any exprHasNeg &&
+    (D.any (fun q => termHugeInt q.s || termHugeInt q.o) || ((gpExprs p).flatMap exprTerms).any termHugeInt ||
+     (gpTerms p).any termHugeInt)
+
 def answer (D : List Quad) (q : Query) : String :=
   let gp : Option GP := match q with | .select _ p => some p | .ask _ p => some p | _ => none
-  if (gp.map (fun p => outOfScope D p || existsUnmodelled p)).getD false then "skip=1" else
+  if (gp.map (fun p => outOfScope D p || existsUnmodelled p || orderSensitive p)).getD false then
+    (if (gp.map (negMin D)).getD false then "skip=1 k.negmin=1" else "skip=1") else
   let impl := implFields D q
-  let spec := specFields (SparqlSpec.evalQuery D) q
+  -- a dataset clause without `named` list may be refused or answered (SparqlSpec.evalQuery): a refusal
+  -- is accepted as such
+  let programmaticFrom := match q with
+    | .select (some ⟨_, none⟩) _ | .ask (some ⟨_, none⟩) _ => true
+    | _ => false
+  let spec := if programmaticFrom && impl.lookup "errclass" == some "notimpl" then [("errclass", "notimpl")]
+    else specFields (SparqlSpec.evalQuery D) q
   let dev := if agrees spec impl then "none" else attributeDev D q impl
-  reply (impl.map (fun kv => kv.1 ++ "=" ++ kv.2) ++ spec.map (fun kv => "o." ++ kv.1 ++ "=" ++ kv.2) ++ [kv "k.dev" dev])
+  reply (impl.map (fun kv => kv.1 ++ "=" ++ kv.2) ++ spec.map (fun kv => "o." ++ kv.1 ++ "=" ++ kv.2) ++ [kv "k.dev" dev] ++
+    (if (gp.map (negMin D)).getD false then [kv "k.negmin" "1"] else []))
 
 /-! ### model-level search (used by check.py when a tie or a proof broke without a failing input):
 all datasets of ≤ 3 quads and BGPs of ≤ 2 triple patterns over a tiny vocabulary, bare and under
